@@ -582,3 +582,90 @@ def style_last(ck, F, rule="STYLE-LAST"):
               "move_cell calls %s after (or without a following) copy of the source style: the number format inferred from the "
               "formula's operands overrides the cell's own format when rows/columns are inserted, deleted or moved" % name, f, l,
               sample={"reentry": name})
+
+
+def shift_pair_columns(ck, F, rule="SHIFT-PAIR"):
+    """Column-descriptor rebuild: insert_columns moves Col.min / Col.max by exactly +column_count and delete_columns by
+    exactly -column_count (or to the deletion boundary), nothing else -- no clamping, no other transformation -- so that
+    the two are inverse on every descriptor they both touch."""
+    COL = "ironcalc_base::types::Col"
+    for fn, sign in (("insert_columns", "Add"), ("delete_columns", "Sub")):
+        b = ck.need(F.one, "model::Model::" + fn)
+        k = 0
+        for bi, si, s in b.stmts():
+            if not place_proj(s["p"]) or s["rv"]["k"] != "use":
+                continue
+            p = b.resolve_place(s["p"], through_named=False)
+            fs = [e for e in place_proj(p) if e[0] == "f"]
+            if not (fs and fs[-1][3] == COL and fs[-1][2] in ("min", "max")):
+                continue
+            k += 1
+            fld = fs[-1][2]
+            sr = sources(b, s["rv"]["o"])
+            bad = [x for x in sr if x[0] == "call" or (x[0] == "arith" and x[1] != sign and not (fn == "delete_columns" and x[1] == "Sub"))
+                   or (x[0] == "field" and (x[1], x[2]) not in ((COL, "min"), (COL, "max"))) or (x[0] == "param" and x[1] not in ("column", "column_count"))]
+            shifted = ("param", "column_count") in sr
+            if shifted:
+                bad += [x for x in sr if x[0] == "field" and x[2] != fld]
+            f, l = b.loc(bi, si)
+            ck.ob(rule, "%s|Col.%s#%d" % (fn, fld, k), not bad,
+                  "%s rebuilds Col.%s from %s: only %s column_count (or the deletion boundary) is allowed, otherwise insert followed by "
+                  "delete does not restore the descriptor" % (fn, fld, sorted(map(str, sr)), "+" if sign == "Add" else "-"), f, l,
+                  sample={"fn": fn, "field": fld, "sources": sorted(map(str, sr))})
+        ck.ob(rule, "%s|Col-stores" % fn, k >= 3, "%s: expected at least 3 stores into Col.min/max, found %d" % (fn, k), b.file, b.line)
+
+
+def full_range_guard(ck, F, rule="FULL-RANGE"):
+    """Whole-row / whole-column references (B:B, 3:3) keep their artificial end points: in stringify_reference the
+    DisplaceData::Row arm only touches the row when `full_row` is false, the Column arm only touches the column when
+    `full_column` is false (sibling arms, mirrored guards)."""
+    from mir import enum_switches, arm_region, rvalue_places
+    DD = "ironcalc_base::expressions::parser::stringify::DisplaceData"
+    b = ck.need(F.one, "stringify::stringify_reference")
+    names = {b.local_name(i): i for i in range(1, b.nargs + 1)}
+    sws = enum_switches(b, DD)
+    ck.ob(rule, "stringify_reference|DisplaceData-switch", len(sws) >= 1 and "full_row" in names and "full_column" in names,
+          "stringify_reference: DisplaceData match or the full_row / full_column parameters not found", b.file, b.line)
+    if not sws or "full_row" not in names:
+        return
+    sw_bi, arms = sws[0][0], sws[0][1]
+    for variant, flag in (("Row", "full_row"), ("Column", "full_column")):
+        entry = arms.get(variant)
+        if entry is None:
+            ck.ob(rule, "stringify_reference|%s-arm" % variant, False, "no arm for DisplaceData::%s" % variant, b.file, b.line)
+            continue
+        region = arm_region(b, sw_bi, entry)
+        # edges on which the flag is false
+        false_edges = []
+        for bi in region:
+            t = b.blocks[bi]["t"]
+            if t["k"] == "switch" and t["ty"] == "bool":
+                src = b.trace(t["o"])
+                p = op_place(t["o"])
+                l = None
+                if src["kind"] == "arg":
+                    l = src["local"]
+                elif p is not None and not place_proj(p):
+                    rv = b.def_rvalue(p["l"])
+                    q = op_place(rv["o"]) if rv is not None and rv["k"] == "use" else None
+                    l = q["l"] if q is not None and not place_proj(q) else p["l"]
+                if l == names[flag]:
+                    false_edges += [tg for v, tg in t["targets"] if v == "0"]
+        # reads of the arm's delta payload
+        reads = []
+        for bi in sorted(region):
+            for s in b.blocks[bi]["s"]:
+                if s["rv"]["k"] in ("ref", "rawptr"):
+                    continue     # the pattern binding `delta = &payload.delta`, not a read of its value
+                for pl in rvalue_places(s["rv"]):
+                    rp = b.resolve_place(pl, through_named=True)
+                    if [e for e in place_proj(rp) if e[0] == "f" and e[2] == "delta" and e[3] == DD and e[4] == variant]:
+                        reads.append(bi)
+        reads = sorted(set(reads))
+        f, l = b.loc(entry)
+        ck.ob(rule, "stringify_reference|%s-arm reads delta" % variant, bool(reads), "DisplaceData::%s arm never reads delta (anchor lost?)" % variant, f, l)
+        bad = [r for r in reads if not any(b.dominates(e, r) for e in false_edges)]
+        ck.ob(rule, "stringify_reference|%s-arm guarded by !%s" % (variant, flag), not bad,
+              "the DisplaceData::%s arm displaces the %s of a reference without testing `%s`: deleting row/column 1 (or the last one) "
+              "turns the artificial end point of a whole-%s reference like B:B into #REF!" % (variant, variant.lower(), flag, "column" if variant == "Row" else "row"),
+              *(b.loc(bad[0]) if bad else (f, l)), sample={"arm": variant, "flag": flag, "delta_reads": len(reads)})
